@@ -157,7 +157,28 @@ pub async fn hostile_streams(a: &Value) -> Value {
     let still = s.peers().contains(&hostile_id) && s.peers().contains(&honest.peer_id());
     let (final_ok, _) = probe(&honest, s.peer_id(), "final", limit_ms).await;
     drop(keep_send); drop(keep_recv);
-    json!({"steps": steps, "slow_rpc_ok": slow_ok, "both_still_connected": still, "final_rpc_ok": final_ok, "limit_ms": limit_ms, "slow_ms": slow_ms})
+    // a peer goes away ABRUPTLY with requests of its own in flight (one being handled, one half sent): that ends its connection, nothing else
+    let abrupt = if only.is_none() {
+        let (ep2, _p2) = raw_client(24, "verif");
+        let mut r = json!({"connected": false});
+        if let Ok(Ok(c2)) = tokio::time::timeout(Duration::from_secs(3), ep2.connect(s.local_addr(), "verif").expect("connect")).await {
+            if let Ok(Ok(mut rx)) = tokio::time::timeout(Duration::from_secs(2), c2.accept_uni()).await { let mut b = [0u8; 8]; let _ = rx.read_exact(&mut b).await; }
+            let mut held = Vec::new();
+            if let Ok((mut tx, rx)) = c2.open_bi().await { let _ = tx.write_all(&encode_request("/slow", b"slow-two")).await; let _ = tx.finish(); held.push((tx, rx)); }
+            if let Ok((mut tx, rx)) = c2.open_bi().await { let _ = tx.write_all(&valid[..valid.len() / 2]).await; held.push((tx, rx)); }
+            tokio::time::sleep(Duration::from_millis(150)).await;
+            c2.close(3u32.into(), b"gone");
+            ep2.close(3u32.into(), b"gone");
+            drop(held);
+            tokio::time::sleep(Duration::from_millis(400)).await;
+            let (honest_ok, _) = probe(&honest, s.peer_id(), "after-abrupt", limit_ms).await;
+            let (ep3, _p3) = raw_client(25, "verif");
+            let newcomer = matches!(tokio::time::timeout(Duration::from_secs(3), ep3.connect(s.local_addr(), "verif").expect("connect")).await, Ok(Ok(_)));
+            r = json!({"connected": true, "server_closed": s.is_closed(), "honest_rpc_ok": honest_ok, "new_peer_can_connect": newcomer});
+        }
+        r
+    } else { Value::Null };
+    json!({"steps": steps, "slow_rpc_ok": slow_ok, "both_still_connected": still, "final_rpc_ok": final_ok, "limit_ms": limit_ms, "slow_ms": slow_ms, "after_abrupt_close_with_requests_in_flight": abrupt})
 }
 
 /// C11, serving side, with a caller that is NOT anemo (so nothing on the calling side enforces the header): a request carrying a timeout header
@@ -376,4 +397,47 @@ pub async fn typed_rpc_roundtrip(_a: &Value) -> Value {
     let still = tokio::time::timeout(Duration::from_secs(3), caller.rpc(sid, Request::new(Bytes::from(vec![5u8, 0, 0, 0, 0, 0, 0, 0, b'h', b'e', b'l', b'l', b'o'])).with_route("/m"))).await;
     out.push(json!({"case": "the server still serves afterwards", "ok": matches!(still, Ok(Ok(ref r)) if r.status().to_u16() == 200), "observed": Value::Null}));
     json!({"cases": out})
+}
+
+/// C06: a connected peer has a request in flight on a slow handler (and a second one half sent) and then goes away abruptly -- by `disconnect()` if it is an
+/// anemo node, by closing the QUIC connection if it is a raw client.  Run on a current-thread runtime AND on a multi-thread one (which task notices the
+/// end of the connection first differs between the two).  Afterwards the node is up, an honest peer is served and a newcomer can connect.
+pub async fn abrupt_close(_a: &Value) -> Value {
+    let s = net(26, 4000);
+    let honest = net(27, 10);
+    let sid = honest.connect(s.local_addr()).await.expect("connect");
+    let mut rounds = Vec::new();
+    for kind in ["anemo_peer_disconnects", "raw_client_closes"] {
+        if kind == "anemo_peer_disconnects" {
+            let hostile = net(28, 10);
+            let _ = hostile.connect(s.local_addr()).await.expect("connect");
+            let h2 = hostile.clone();
+            let t = tokio::spawn(async move { let _ = h2.rpc(sid, Request::new(Bytes::from_static(b"slow-three"))).await; });
+            tokio::time::sleep(Duration::from_millis(150)).await;
+            let _ = hostile.disconnect(sid);
+            tokio::time::sleep(Duration::from_millis(50)).await;
+            t.abort();
+            drop(hostile);
+        } else {
+            let (ep2, _p2) = raw_client(29, "verif");
+            if let Ok(Ok(c2)) = tokio::time::timeout(Duration::from_secs(3), ep2.connect(s.local_addr(), "verif").expect("connect")).await {
+                if let Ok(Ok(mut rx)) = tokio::time::timeout(Duration::from_secs(2), c2.accept_uni()).await { let mut b = [0u8; 8]; let _ = rx.read_exact(&mut b).await; }
+                let mut held = Vec::new();
+                if let Ok((mut tx, rx)) = c2.open_bi().await { let _ = tx.write_all(&encode_request("/slow", b"slow-four")).await; let _ = tx.finish(); held.push((tx, rx)); }
+                let valid = encode_request("/x", b"hello");
+                if let Ok((mut tx, rx)) = c2.open_bi().await { let _ = tx.write_all(&valid[..valid.len() / 2]).await; held.push((tx, rx)); }
+                tokio::time::sleep(Duration::from_millis(150)).await;
+                c2.close(3u32.into(), b"gone");
+                ep2.close(3u32.into(), b"gone");
+                drop(held);
+            }
+        }
+        tokio::time::sleep(Duration::from_millis(400)).await;
+        let (honest_ok, _) = probe(&honest, s.peer_id(), kind, 1500).await;
+        let newcomer = net(30, 10);
+        let can_connect = matches!(tokio::time::timeout(Duration::from_secs(3), newcomer.connect(s.local_addr())).await, Ok(Ok(_)));
+        let _ = newcomer.disconnect(s.peer_id());
+        rounds.push(json!({"how": kind, "server_closed": s.is_closed(), "honest_rpc_ok": honest_ok, "new_peer_can_connect": can_connect}));
+    }
+    json!({"rounds": rounds})
 }
